@@ -113,34 +113,35 @@ CHECKS = {
         "and appends exactly item_bytes; each matching read at a reader framed as pre++bytes++post returns the value written - strings as their "
         "cp1252 image - and leaves the reader exactly past the item; whole lists round-trip and consume the output exactly; the two exclusions "
         "(0xFF in padded, '~' in encoded strings) are shown necessary), by induction with a framing invariant over hand-written models of EoWriter "
-        "and EoReader, tied to the code by differential correspondence (all pairs of item kinds + random lists) evaluated by vm_compute.",
-   technique="Coq proof (framing invariant, induction over item lists) + vm_compute correspondence of writer/reader models",
-   note=COMMON_NOTE + "EoWriter/EoReader are modelled by hand (Model/Writer.v, Model/Reader.v), not translated; CPython's windows-1252 codec is a table validated exhaustively against CPython on every run.", ref="8 (C04)"),
+        "and EoReader; both classes are translated from the source by py2coq on every run and proved equal to the models for all states and arguments (Bridge/B_writer.v, B_reader.v), plus differential correspondence (all pairs of item kinds + random lists) evaluated by vm_compute.",
+   technique="Coq proof (framing invariant, induction over item lists) + py2coq class translation with bridge lemmas + vm_compute correspondence",
+   note=COMMON_NOTE + "Bridge side conditions: chunk start >= 0, cached break >= -1 (proved invariant from any EoReader(data)); negative-index wraparound of slices is outside the translated subset (sites listed in the generated files); CPython's windows-1252 codec is a table validated exhaustively against CPython on every run.", ref="8 (C04)"),
  'C05': dict(
    text="Coq theorems over ALL data and ALL finite histories of public reader operations incl. slices of slices (Properties/C05.v: the faithful "
         "model R with the cached break index is step-wise simulated by the documented cache-free model A, hence equal outputs for every history; "
         "on A: 0 <= chunk start <= position <= len for every reachable state, remaining >= 0, every read returns exactly data[pos,pos') bounded by "
         "the chunk end / end of data and 0xFF-free in chunked mode, exhausted reads yield 0/empty without moving, next_chunk lands just past the "
-        "break or at the end, slices are independent readers over the clipped sub-range). Tie: differential correspondence of the implementation "
-        "with R and with A (bounded-exhaustive scripts + random multi-reader histories), plus an independent Python transcription of the documented model as oracle.",
-   technique="Coq proof (step-wise simulation R<=A, invariants by induction over histories) + bounded-exhaustive/random correspondence",
-   note=COMMON_NOTE + "EoReader modelled by hand; negative length arguments are outside the property and outside the model (RBytes n<0 is flagged, never generated); mutation of the buffer behind the memoryview is not modelled.", ref="8 (C05)"),
+        "break or at the end, slices are independent readers over the clipped sub-range). Tie: EoReader is translated from the source by py2coq on every run and proved equal to R for all states/arguments, incl. whole multi-reader histories (Bridge/B_reader.v: reader_bridge_run); "
+        "plus differential correspondence with R and A (bounded-exhaustive scripts + random multi-reader histories) and an independent Python transcription of the documented model as oracle.",
+   technique="Coq proof (step-wise simulation R<=A, invariants by induction over histories) + py2coq class translation with bridge lemmas + bounded-exhaustive/random correspondence",
+   note=COMMON_NOTE + "Bridge side conditions (chunk start >= 0, cached break >= -1) are proved invariant from any EoReader(data); negative length arguments are outside the property and outside the model (RBytes n<0 is flagged, never generated); mutation of the buffer behind the memoryview is not modelled.", ref="8 (C05)"),
  'C06': dict(
    text="Coq theorems over ALL lists of 0xFF-free chunks and ALL read plans (Properties/C06.v: with sanitisation on no in-range integer and no "
         "string field contains 0xFF; what each chunk's plan observes through a chunked reader over the joined data equals what it observes on a "
         "stand-alone reader over that chunk alone - for any plans of the other chunks, any number of surplus reads; the reader stays inside "
-        "[chunk start, break] and next_chunk re-establishes the frame), tied to the code by correspondence on generated chunk/plan sets and by "
+        "[chunk start, break] and next_chunk re-establishes the frame), tied to the code by the py2coq bridges of both classes (Bridge/B_reader.v, B_writer.v), by correspondence on generated chunk/plan sets and by "
         "an implementation-level isolation oracle (same chunk plan under different neighbour plans).",
-   technique="Coq proof (in-chunk/stand-alone correspondence relation, induction over chunks) + vm_compute correspondence",
-   note=COMMON_NOTE + "Writer/reader modelled by hand. Padded strings and raw byte(s) fields may carry 0xFF and are excluded from chunk fields, as in the property text.", ref="8 (C06)"),
+   technique="Coq proof (in-chunk/stand-alone correspondence relation, induction over chunks) + py2coq class bridges + vm_compute correspondence",
+   note=COMMON_NOTE + " Padded strings and raw byte(s) fields may carry 0xFF and are excluded from chunk fields, as in the property text.", ref="8 (C06)"),
  'C09': dict(
    text="Coq theorems over ALL writer states, operations and histories (Properties/C09.v: a failing write leaves the state unchanged and fails with "
         "ValueError only; every value at/above its limit and every string violating its fixed/padded length is rejected; every accepted write appends "
         "exactly the declared number of bytes and keeps the mode; in-range values are accepted; with sanitisation on the 0xFF bytes emitted are exactly "
         "the padding bytes and each y-diaeresis becomes 'y'; with it off the exact windows-1252 image is emitted), about a model written in the "
-        "statement order of the code, tied by differential correspondence after every step of bounded-exhaustive single ops and random histories.",
-   technique="Coq proof (case analysis per operation via an emit/fail factorisation, count_occ of 0xFF) + vm_compute correspondence per step",
-   note=COMMON_NOTE + "EoWriter modelled by hand (statement order preserved so atomicity is a theorem, not a definition); negative integers behave as in CPython (-1 writes 0x00).", ref="8 (C09)"),
+        "statement order of the code; EoWriter is translated from the source by py2coq on every run and proved equal to the model for all states, arguments and histories (Bridge/B_writer.v, no side conditions), "
+        "plus differential correspondence after every step of bounded-exhaustive single ops and random histories.",
+   technique="Coq proof (case analysis per operation via an emit/fail factorisation, count_occ of 0xFF) + py2coq class translation with bridge lemmas + vm_compute correspondence per step",
+   note=COMMON_NOTE + "The translated class keeps the statement order (an effect before a raise would show in G and break the bridge); negative integers behave as in CPython (-1 writes 0x00).", ref="8 (C09)"),
  'C10': dict(
    text="Coq theorems over ALL byte lists / lengths / multiples (Properties/C10.v: interleave and deinterleave are the index maps isrc/dsrc of the "
         "length alone, mutually inverse bijections of [0,n), hence inverse length-preserving permutations; flip is an involution on bytes fixing "
